@@ -1,8 +1,48 @@
 package main
 
-import "golang.org/x/tools/go/ssa"
+import (
+	"strings"
 
-// onLock: lock invariants (lockinv declarations) are assumed on acquire and
-// must be re-established on release.
+	"golang.org/x/tools/go/ssa"
+)
+
+// onLock: lock invariants (lockinv Type.field : expr over `this`) are assumed
+// when the lock is acquired and must hold when it is released (CSL mutex rule;
+// the soundness of the rule is trusted, its premises are checked here).
 func (e *Exec) onLock(st *State, fr *Frame, site ssa.Instruction, m *Term, exclusive, acquire bool) {
+	for key, inv := range e.db.lockinvs {
+		// key: pkg.Type.field
+		i := strings.LastIndex(key, ".")
+		tname, fname := key[:i], key[i+1:]
+		pkgPath := pkgGldap
+		if strings.HasPrefix(tname, "testdirectory.") {
+			pkgPath = pkgTD
+		}
+		tn := tname[strings.Index(tname, ".")+1:]
+		obj := e.P.tpkgs[pkgPath].Scope().Lookup(tn)
+		if obj == nil {
+			panic(sperr("lockinv: unknown type %s", tname))
+		}
+		T := obj.Type()
+		st0, ok := under(T).(*types_Struct)
+		_ = st0
+		_ = ok
+		idx := fieldIndex(T, fname)
+		if idx < 0 {
+			panic(sperr("lockinv: no field %s in %s", fname, tname))
+		}
+		want := "|" + fieldFa(T, idx) + "|"
+		if m.Op != want || len(m.Args) != 1 {
+			continue
+		}
+		this := m.Args[0]
+		ctx := e.newSpecCtx(st, e.P.tpkgs[pkgPath], st.frames[0].entry)
+		ctx.vars["this"] = &specVar{v: this, t: typesPointer(T)}
+		g := ctx.evalBool(inv.Expr)
+		if acquire {
+			e.assume(g)
+		} else if exclusive {
+			e.check(st, fr, "LOCK.inv", site, "lockinv "+key+": "+inv.Text+" | "+e.P.srcLine(site.Pos()), g)
+		}
+	}
 }
